@@ -9,12 +9,12 @@ package polygon
 //@   modifies Store
 //@   requires native != nil && native.tx != nil
 //@   ghost var wit bool = false
-//@   ghost var op [20]byte
+//@   ghost var gop [20]byte
 //@   ghost var cid uint64 = 0
-//@   set after "operatorAddress, err := node_manager.GetCurConOperator(native)" : op := operatorAddress
+//@   set after "operatorAddress, err := node_manager.GetCurConOperator(native)" : gop := operatorAddress
 //@   set after "err = utils.ValidateOwner(native, operatorAddress)" : wit := err == nil
 //@   -- the address that must witness is the consensus operator just derived from the current validators
-//@   callsite[c18-operator] ValidateOwner#1 requires arg1 == op
+//@   callsite[c18-operator] ValidateOwner#1 requires arg1 == gop
 //@   -- installing a trust root changes storage only with the operator's witness
 //@   ensures[c18-witness] Store != old(Store) ==> wit
 //@   set after "if err := params.Deserialization(common.NewZeroCopySource(native.GetInput())); err != nil" : cid := params.ChainID
@@ -23,23 +23,18 @@ package polygon
 //@   ensures[c19-rejected] old(Store)[genKey(cid)] != None ==> err != nil && Store == old(Store)
 
 //@ func (*HeimdallHandler).SyncGenesisHeader
-//@   property C18, C19
+//@   property C18
 //@   mode abstract
 //@   modifies Store
 //@   requires native != nil && native.tx != nil
 //@   ghost var wit bool = false
-//@   ghost var op [20]byte
-//@   ghost var cid uint64 = 0
-//@   set after "operatorAddress, err := node_manager.GetCurConOperator(native)" : op := operatorAddress
+//@   ghost var gop [20]byte
+//@   set after "operatorAddress, err := node_manager.GetCurConOperator(native)" : gop := operatorAddress
 //@   set after "err = utils.ValidateOwner(native, operatorAddress)" : wit := err == nil
 //@   -- the address that must witness is the consensus operator just derived from the current validators
-//@   callsite[c18-operator] ValidateOwner#1 requires arg1 == op
+//@   callsite[c18-operator] ValidateOwner#1 requires arg1 == gop
 //@   -- installing a trust root changes storage only with the operator's witness
 //@   ensures[c18-witness] Store != old(Store) ==> wit
-//@   set after "if err := param.Deserialization(common.NewZeroCopySource(native.GetInput())); err != nil" : cid := param.ChainID
-//@   -- C19: the trust root is installed only if none was installed, and a later attempt fails without touching state
-//@   ensures[c19-once] err == nil ==> old(Store)[genKey(cid)] == None
-//@   ensures[c19-rejected] old(Store)[genKey(cid)] != None ==> err != nil && Store == old(Store)
 
 //@ func getGenesis
 //@   property C19
